@@ -11,6 +11,7 @@ IMPORTS = {
     "C01": [
         ("C07", ["C07.D1", "C07.W1", "C07.W2", "C07.W3"], "no infinitely sized types: every containment cycle is cut"),
         ("C11", ["C11.D1"], "the flags that switch on the untagged-enum FromStr/Display impls hold only for enums whose every variant is a single item with that impl: otherwise the emitted impl does not type-check"),
+        ("C17", ["C17.W2"], "types named inside `mod builder` / `mod defaults` carry the module prefix at every nesting level, otherwise the path does not resolve"),
         ("C17", ["C17.D1"], "forwarding impls (newtype/untagged FromStr, Display, Default) are emitted wherever has_impl answers true for the inner type: a false `true` yields an impl that does not type-check"),
         ("C19", ["C19.T2", "C19.D1"], "no conflicting or missing Deserialize impls; no derive that cannot be derived"),
         ("C06", ["C06.D1", "C06.D2", "C06.W1", "C06.W2"], "a default the validator accepts is one the renderer can render (no panic while rendering, no ill-typed default expression) and every shared default fn the output names is defined"),
@@ -32,6 +33,7 @@ IMPORTS = {
         ("C02", ["C02.W5", "C02.D2"], "sibling subschemas keep types of their own (a value is not rewritten through a sibling's type); an anyOf is only treated as a oneOf when no two alternatives overlap, so no member is dropped by a shadowing variant"),
     ],
     "C05": [
+        ("C09", ["C09.W1"], "a closed object stays closed through an allOf merge: an unsatisfiable / `false` additionalProperties outcome is never dropped to 'absent'"),
         ("C11", ["C11.T1", "C11.T2"], "FromStr / TryFrom accept exactly the strings Deserialize accepts (same raw names, same constrained path)"),
     ],
     "C06": [
